@@ -675,7 +675,17 @@ func (x *hist) relationRoundTrip(name2 string) {
 		}
 	}
 	// 2. an old row gains a new associated record and shares one with the record created above
-	if len(x.known) > 0 && len(problems) == 0 {
+	// (Append touches the owner's autoUpdateTime columns: not done when such a column carries a generated
+	// check, whose range the time gorm writes lies outside of)
+	timeChecked := false
+	for _, l := range x.l2 {
+		if l.f.AutoUpdateTime != 0 {
+			for _, e := range x.m.chk {
+				timeChecked = timeChecked || e.Col == l.col
+			}
+		}
+	}
+	if len(x.known) > 0 && len(problems) == 0 && !timeChecked {
 		row := x.known[0]
 		var conds []string
 		for _, l := range pkLeaves(x.l1) {
